@@ -11,7 +11,10 @@ RULE = ('Same two-endpoint history generator as C01 plus user terminate() calls 
         'no START after own SESS_TERM; per transfer: contiguous segments, START first with Transfer-Length == sum of '
         'data, END only last, fresh ids; every segment <= the peer segment MRU read from the opposite log; the k-th '
         'XFER_ACK echoes flags/id of the k-th received segment with the cumulative length.  Non-trivial = a direction '
-        'carried >= 2 transfers of which one had >= 2 segments; distinct by SHA-1 of the case.')
+        'carried >= 2 transfers of which one had >= 2 segments; distinct by SHA-1 of the case.  (refusal) one endpoint against a scripted '
+        'peer that refuses one of its transfers (queued / in the middle of its segments / completely sent; each refusal reason code; with or '
+        'without a late ACK) and acknowledges the rest: the same monitor over what the endpoint wrote; a refused transfer may stop without an '
+        'END segment, its ID is never used again.')
 SHRINK_KEYS = ('ops',)
 ASSUMPTIONS = [
     'independent RFC 9174 parser vlib/ref9174.py',
@@ -38,6 +41,13 @@ def strategy(tier):
 
 
 def enumerate_cases(tier):
+    for case in refusal_cases():
+        yield case
+    for case in _enumerate_timing(tier):
+        yield case
+
+
+def _enumerate_timing(tier):
     ''' Keepalive timers configured and a network that is slow while the two sides negotiate: the virtual clock moves
     past the keepalive interval between scheduler steps of the handshake. '''
     import itertools
@@ -77,8 +87,9 @@ def pinned_cases():
                                                   ['term', 'A', 0], ['send', 'A', 3, 9]]}
 
 
-def monitor(out, sender, msgs, status, omsgs, labels):
-    ''' msgs: messages written by ``sender``; omsgs: messages it received (opposite log). '''
+def monitor(out, sender, msgs, status, omsgs, labels, refused=()):
+    ''' msgs: messages written by ``sender``; omsgs: messages it received (opposite log); refused: transfer IDs the peer
+    refused (such a transfer may stop without an END segment). '''
     from vlib import ref9174 as r
     if status.startswith('invalid'):
         out.fail('wire-invalid', '%s wrote octets that are not an RFC 9174 message: %s' % (sender, status))
@@ -125,6 +136,9 @@ def monitor(out, sender, msgs, status, omsgs, labels):
             elif dlen > peer_mru:
                 out.fail('segment-exceeds-mru', '%s sent a %d-octet segment, peer segment MRU is %d' % (sender, dlen, peer_mru))
             if start:
+                if cur is not None and cur['id'] in refused:
+                    labels.add('refused-transfer-stopped-without-end')
+                    cur = None
                 if cur is not None:
                     out.fail('start-inside-transfer', '%s started transfer %d while %d was open' % (sender, msg['id'], cur['id']))
                 if msg['id'] in used_ids:
@@ -196,7 +210,39 @@ def judge(trace, out):
             trace.labels.add('terminate-accepted')
 
 
+def refusal_cases():
+    ''' A scripted peer refuses one of the endpoint's own transfers (the scenario of checks/C18.py execute_refusal: while
+    it is queued, in the middle of its segments, or completely sent) with each refusal reason code, then acknowledges the
+    rest: what the endpoint writes afterwards must still be a legal message sequence - in particular no transfer ID a
+    second time, whatever the reason (3 = "retransmit") suggests. '''
+    from checks import C18
+    for base in C18.refusal_cases():
+        for reason in (0, 1, 3, 4, 5):
+            yield dict(base, reason=reason)
+
+
+def execute_refusal(case):
+    from checks import C18
+    from vlib import ref9174 as r
+    out = Outcome()
+    scratch = Outcome()
+    C18.execute_refusal(case, scratch)       # (its own verdicts about the D-Bus view belong to C18)
+    trace = scratch.refusal_trace
+    msgs, _used, status = r.parse_stream(trace['real'], expect_contact=True)
+    omsgs = r.parse_stream(trace['peer'], expect_contact=True)[0]
+    labels = set(['refusal', 'refused-when:%s' % trace['situation'], 'refusal-reason:%d' % case.get('reason', 2)])
+    monitor(out, 'the endpoint', msgs, status, omsgs, labels, refused=() if trace['void'] else (trace['target'],))
+    labels.discard('nontrivial')
+    # non-trivial: the endpoint wrote a segment of another transfer after the refused one had started
+    started = [m['id'] for m in msgs if m['t'] == 'XFER_SEGMENT' and m['flags'] & r.SEG_START]
+    out.nontrivial = not trace['void'] and trace['target'] in started and len(set(started)) >= 2
+    out.labels = sorted(labels)
+    return out
+
+
 def execute(case):
+    if case.get('kind') == 'refusal':
+        return execute_refusal(case)
     from vlib import tcpcl_machine as tm
     out = Outcome()
     trace = tm.execute(case)
